@@ -98,8 +98,10 @@ func containerSize(children []Box) uint64 {
 func DecodeContainerChildren(hdr BoxHeader, startPos, endPos uint64, r io.Reader) ([]Box, error) {
 	children := make([]Box, 0, 8)
 	pos := startPos
+	// Never read beyond the end of the container, and keep track of how much each child reads
+	cr := &countingReader{r: io.LimitReader(r, int64(endPos-startPos))}
 	for {
-		child, err := DecodeBox(pos, r)
+		child, err := DecodeBox(pos, cr)
 		if err == io.EOF {
 			return children, nil
 		}
@@ -108,6 +110,9 @@ func DecodeContainerChildren(hdr BoxHeader, startPos, endPos uint64, r io.Reader
 		}
 		children = append(children, child)
 		pos += child.Size()
+		if pos-startPos != cr.nrRead {
+			return nil, fmt.Errorf("child %s size mismatch in %s: %d - %d", child.Type(), hdr.Name, pos-startPos, cr.nrRead)
+		}
 		if pos == endPos {
 			return children, nil
 		} else if pos > endPos {
@@ -118,6 +123,18 @@ func DecodeContainerChildren(hdr BoxHeader, startPos, endPos uint64, r io.Reader
 			return nil, fmt.Errorf("non-matching children box sizes, parentSize=%d, %s", endPos-startPos, msg)
 		}
 	}
+}
+
+// countingReader counts the bytes read from the underlying reader.
+type countingReader struct {
+	r      io.Reader
+	nrRead uint64
+}
+
+func (c *countingReader) Read(p []byte) (int, error) {
+	n, err := c.r.Read(p)
+	c.nrRead += uint64(n)
+	return n, err
 }
 
 // DecodeContainerChildren decodes a container box
